@@ -184,7 +184,7 @@ func combinePorts(as string, bs string) (string, error) {
 }
 
 func parsePorts(portsStr string) *bitset.BitSet {
-	setOfPorts := bitset.New(2 ^ 16 + 1)
+	setOfPorts := bitset.New(1<<16 + 1)
 	for p := range strings.SplitSeq(portsStr, ",") {
 		if strings.Contains(p, "-") {
 			// Range
